@@ -61,6 +61,7 @@ fn emit_choice(
             .map(Node::Tag);
         if choice.has_choice_only_content
             && !choice.has_start_content
+            && choice.body_divert_is_inline
             && matches!(choice.body.as_slice(), [Node::Divert(_)])
         {
             branch_nodes.extend(tokenize_inline_content(&format!(" {selected_text}"))?);
@@ -83,16 +84,20 @@ fn emit_choice(
             branch_nodes.extend(tags);
         }
         if !body_already_emitted {
-            // Skip the auto-newline for terminal diverts, and also for inline diverts that are
-            // authored after inline selected text on the same source line (the selected text keeps
-            // the trailing whitespace needed to join the diverted content).
+            // Skip the auto-newline for terminal diverts.
             let body_is_terminal_divert = matches!(
                 choice.body.as_slice(),
                 [Node::Divert(d)] if d.target == "END" || d.target == "DONE"
             );
-            let body_is_inline_divert = matches!(choice.body.as_slice(), [Node::Divert(_)])
-                && selected_text.ends_with(char::is_whitespace);
-            if !body_is_terminal_divert && !body_is_inline_divert {
+            if choice.body_divert_is_inline && !choice.body.is_empty() {
+                // A divert written on the choice line comes before the line break that
+                // ends the line (the selected text keeps the blanks before the arrow):
+                // the text joins the first line of the target.
+                branch_nodes.push(choice.body[0].clone());
+                branch_nodes.push(Node::Newline);
+                branch_nodes.extend(choice.body[1..].iter().cloned());
+                body_already_emitted = true;
+            } else if !body_is_terminal_divert {
                 branch_nodes.push(Node::Newline);
             }
         }
